@@ -4,6 +4,7 @@ import Exetera.Spec.MapValid
 import Exetera.Lemmas.MapValidStream
 import Exetera.Lemmas.MapValidIndexed4
 import Exetera.Lemmas.MapValidFlat2
+import Exetera.Lemmas.MergeFit
 /-! Helper lemmas for C02, part 1: one destination column = the selected source rows (through the C04 theorems), and the
     sequential creation of the destination fields. -/
 namespace Exetera.Merge
@@ -56,6 +57,15 @@ structure ColOK (col : Col) (n : Nat) (cap : Nat) : Prop where
   len : col.len = n
   indexedOK : ∀ ix vs, col = .indexed ix vs → IndexedOK ix vs ∧ ∀ e ∈ entries ix vs, e.length ≤ cap
 
+/-- a source column as the property grants it: the right number of rows, an indexed column well formed (C01). Nothing is
+    asked about entry lengths (the streamed mapper sizes its value buffer itself since fix NC02c). -/
+structure ColWF (col : Col) (n : Nat) : Prop where
+  len : col.len = n
+  indexedOK : ∀ ix vs, col = .indexed ix vs → IndexedOK ix vs
+
+theorem ColWF.of_ok {col : Col} {n cap : Nat} (h : ColOK col n cap) : ColWF col n :=
+  ⟨h.len, fun ix vs e => (h.indexedOK ix vs e).1⟩
+
 theorem entries_len_of_ok {ix vs : List Int} (n : Nat) (h : (Col.indexed ix vs).len = n) (hok : IndexedOK ix vs) :
     (entries ix vs).length = n := by
   rw [entries_length]
@@ -63,9 +73,9 @@ theorem entries_len_of_ok {ix vs : List Int} (n : Nat) (h : (Col.indexed ix vs).
 
 /-- **one streamed column** (`ordered_map_valid_stream` / `ordered_map_valid_indexed_stream` with the `invalid` the call
     site passes): the destination column is the selected rows of the source -/
-theorem mapColumn_stream (side : String) (col : Col) (n : Nat) (sel : List (Option Nat)) (inv : Int) (cs vf : Nat)
+theorem mapColumn_stream_wf (side : String) (col : Col) (n : Nat) (sel : List (Option Nat)) (inv : Int) (cs vf : Nat)
     (hflat : mapPlan side "flat" = .ok (.stream true)) (hidx : mapPlan side "indexed" = .ok (.istream true))
-    (hcs : 1 ≤ cs) (hcol : ColOK col n (cs * vf)) (hsel : ∀ i, some i ∈ sel → i < n) (hinv : (n : Int) ≤ inv) :
+    (hcs : 1 ≤ cs) (hcol : ColWF col n) (hsel : ∀ i, some i ∈ sel → i < n) (hinv : (n : Int) ≤ inv) :
     ∃ out, mapColumn side col (some (encSel inv sel)) inv cs vf = .ok out ∧ selectCol col sel = some out := by
   have hne : ∀ i, some i ∈ sel → (i : Int) ≠ inv := fun i hi => by have := hsel i hi; omega
   cases col with
@@ -80,11 +90,12 @@ theorem mapColumn_stream (side : String) (col : Col) (n : Nat) (sel : List (Opti
     · rw [mapSpec_encSel vals inv e sel hne] at h2
       simp [selectCol, h2]
   | indexed ix vs =>
-    obtain ⟨hok, hfit⟩ := hcol.indexedOK ix vs rfl
+    have hok := hcol.indexedOK ix vs rfl
     have hl := entries_len_of_ok n hcol.len hok
-    obtain ⟨out, h1, h2⟩ := indexed_stream_spec_any ix vs (encSel inv sel) inv cs vf hok hcs
+    -- the stream sizes its own value buffer (fix NC02c): every entry fits, whatever the caller's floor `vf`
+    obtain ⟨out, h1, h2⟩ := indexed_stream_spec_any ix vs (encSel inv sel) inv cs (autoValueFactor vf ix cs) hok hcs
       (by rw [hl]; exact inRange_encSel n inv sel hsel)
-      (fun _ _ x _ _ hx => hfit x (List.mem_of_getElem? hx))
+      (fun _ _ x _ _ hx => entries_fit_auto vf ix vs cs hcs x (List.mem_of_getElem? hx))
     refine ⟨.indexed out.1 out.2, ?_, ?_⟩
     · simp only [mapColumn, Col.isIndexed, if_true]
       rw [hidx]
@@ -95,6 +106,13 @@ theorem mapColumn_stream (side : String) (col : Col) (n : Nat) (sel : List (Opti
       cases hs : selectCells (entries ix vs) [] sel with
       | none => simp [hs] at h2
       | some es => simp [hs] at h2; simp [← h2]
+
+/-- the same with the (no longer needed) capacity hypothesis of the time before fix NC02c -/
+theorem mapColumn_stream (side : String) (col : Col) (n : Nat) (sel : List (Option Nat)) (inv : Int) (cs vf : Nat)
+    (hflat : mapPlan side "flat" = .ok (.stream true)) (hidx : mapPlan side "indexed" = .ok (.istream true))
+    (hcs : 1 ≤ cs) (hcol : ColOK col n (cs * vf)) (hsel : ∀ i, some i ∈ sel → i < n) (hinv : (n : Int) ≤ inv) :
+    ∃ out, mapColumn side col (some (encSel inv sel)) inv cs vf = .ok out ∧ selectCol col sel = some out :=
+  mapColumn_stream_wf side col n sel inv cs vf hflat hidx hcs (ColWF.of_ok hcol) hsel hinv
 
 /-- the selection "every row once, in order" -/
 def idSel (n : Nat) : List (Option Nat) := (List.range n).map some
